@@ -366,7 +366,9 @@ func runC19(c *Ctx) (int, error) {
 	fmtInputs := []struct {
 		name, text string
 		bad        bool
-	}{{"valid-unformatted", uglySchema, false}, {"valid-formatted", validSchema, false}, {"syntax-error", syntaxBad, true}}
+	}{{"valid-unformatted", uglySchema, false}, {"valid-formatted", validSchema, false}, {"syntax-error", syntaxBad, true},
+		{"valid-no-final-newline", strings.TrimRight(uglySchema, "\n"), false}, {"valid-formatted-no-final-newline", strings.TrimRight(validSchema, "\n"), false},
+		{"valid-ends-in-const", validSchema + "const int32 last = 5;", false}}
 	for _, in := range fmtInputs {
 		dir := filepath.Join(c.Work, "cli", fmt.Sprintf("f%d", runs))
 		_ = os.MkdirAll(dir, 0o755)
@@ -442,6 +444,40 @@ func runC19(c *Ctx) (int, error) {
 		if !sameSchema([]byte(uglySchema), now) {
 			events[len(events)-1]["reparse_same"] = false
 			events[len(events)-1]["exit"] = 0
+		}
+	}
+	// several path arguments: a failure on any of them must show in the exit status, files that cannot be processed stay untouched
+	for ai, order := range [][]string{{"schemas", "good.bop"}, {"good.bop", "bad.bop"}, {"bad.bop", "good.bop"}, {"good.bop", "schemas"}, {"good.bop", "good2.bop"}} {
+		dir := filepath.Join(c.Work, "cli", fmt.Sprintf("multi%d", ai))
+		sub := filepath.Join(dir, "schemas")
+		_ = os.MkdirAll(sub, 0o755)
+		_ = os.WriteFile(filepath.Join(sub, "a_valid.bop"), []byte(uglySchema), 0o644)
+		_ = os.WriteFile(filepath.Join(sub, "b_invalid.bop"), []byte(syntaxBad), 0o644)
+		_ = os.WriteFile(filepath.Join(dir, "good.bop"), []byte(uglySchema), 0o644)
+		_ = os.WriteFile(filepath.Join(dir, "good2.bop"), []byte(validSchema), 0o644)
+		_ = os.WriteFile(filepath.Join(dir, "bad.bop"), []byte(syntaxBad), 0o644)
+		args := []string{"-w"}
+		bad := false
+		target := filepath.Join(dir, "good.bop")
+		old := []byte(uglySchema)
+		for _, a := range order {
+			args = append(args, filepath.Join(dir, a))
+			if a == "schemas" {
+				bad = true
+				target, old = filepath.Join(sub, "b_invalid.bop"), []byte(syntaxBad)
+			}
+			if a == "bad.bop" {
+				bad = true
+				target, old = filepath.Join(dir, "bad.bop"), []byte(syntaxBad)
+			}
+		}
+		r, err := runTraced(filepath.Join(bindir, "bebopfmt"), args, dir, dir, "")
+		if err != nil {
+			return 2, infra("%v", err)
+		}
+		emitRun("bebopfmt", "several path arguments: "+strings.Join(order, " "), r, target, old, bad, !bad)
+		if bad && r.exit != 0 {
+			// the unparsable file is byte-identical (checked by target_same); nothing else to compare
 		}
 	}
 	if runs < 10 {
